@@ -43,11 +43,13 @@ def make_spy(inner):
             self.inner = inner
             self.log = []
             self.order = {}
+            self.objects = {}
             self.fail_save = False
 
         def create_new_recording(self, category):
             r = self.inner.create_new_recording(category)
             self.order[r.id] = len(self.order)
+            self.objects[r.id] = r
             self.log.append(('create', r.id))
             return r
 
@@ -545,13 +547,25 @@ class Sim(object):
                         if type(ex).__name__ != 'NoSuchRecording':
                             saved = {'fetch_error': type(ex).__name__}
                 idle = self.idle()
+                # a write to the recording object of this run after the fact: a finalised recording is closed and rejects it
+                late = None
+                created_ids = [i for k, i in spy.log[log0:] if k == 'create']
+                if created_ids:
+                    late = []
+                    for write in (lambda o: o.set_data('late write', 1), lambda o: o.add_metadata({'late': 1})):
+                        try:
+                            write(spy.objects[created_ids[0]])
+                            late.append('accepted')
+                        except Exception as ex:
+                            late.append(type(ex).__name__)
+                    late = late[0] if late[0] == late[1] else late
                 # undecorated twin
                 ctx.journal = []
                 ctx.outcomes = []
                 twin_cls = self.twins[run['cls']]
                 twin_target = twin_cls if cspec.get('classLevel') else twin_cls()
                 twin_end = self.end_of(lambda: twin_target.execute(script))
-                out.append({'end': end, 'journal': journal, 'log': log, 'saved': saved, 'idle': idle, 'drawn': drawn,
+                out.append({'end': end, 'journal': journal, 'log': log, 'saved': saved, 'late': late, 'idle': idle, 'drawn': drawn,
                             'twinEnd': twin_end, 'twinJournal': ctx.journal,
                             '_outcomes': outcomes, '_identity_ok': identity_ok})
             else:
